@@ -449,6 +449,48 @@ def check_gap(prop: str, res: Result, repo: Repo, cas: List[ClassAnalysis]):
                 res.ok("R-GAP", {"class": ca.ci.name, "None only under": " & ".join(show_cond(c) for c in p.state.facts)[:160] or "always"}, nontrivial=f"{ca.ci.name}:{n}")
 
 
+def _is_none_ret(v) -> bool:
+    return isinstance(v, NoneV) or (isinstance(v, DictV) and all(isinstance(x, NoneV) for x in v.items.values()))
+
+
+def _mentions_at_t(c, name: str) -> bool:
+    """a presence / truthiness fact on the series `name` at the evaluated candle"""
+    if not isinstance(c, tuple) or not c:
+        return False
+    if c[0] == "not":
+        return _mentions_at_t(c[1], name)
+    if c[0] in ("and", "or"):
+        return any(_mentions_at_t(x, name) for x in c[1:])
+    if c[0] == "present":
+        return c[1].partition(".")[0] == name and c[2] == T
+    if c[0] == "truthy":
+        return any(a[0] == "rd" and str(a[1]).partition(".")[0] == name and a[2] == T for a in poly.all_atoms(c[1])) if not isinstance(c[1], tuple) else (c[1][0] == "rd" and str(c[1][1]).partition(".")[0] == name and c[1][2] == T)
+    return False
+
+
+def check_managed_gap(prop: str, res: Result, repo: Repo, cas: List[ClassAnalysis]):
+    """R-GAP (managed series): a formula that feeds a managed series (Managed.set_reading / a direct store that a helper reads) writes it on
+    every path that produces a reading; a path that returns a value but skips the write under a condition on the values seen leaves a hole
+    in that series, and whatever is computed from it (the smoothing helper of HMA, the signal line of MACD) has a gap after warm-up."""
+    for ca in cas:
+        fn = _fn_of(ca)
+        vp = [(frozenset(e[1] for e in p.state.effects if e[0] in ("wr", "direct-wr")), p) for p in ca.paths if not _is_none_ret(p.ret)]
+        allw = set().union(*[w for w, _ in vp]) if vp else set()
+        if not allw:
+            continue
+        bad = 0
+        for w, p in vp:
+            for name in sorted(allw - w):
+                if any(_mentions_at_t(c, name) for c in p.state.facts):
+                    continue  # the path presupposes the series already holds this candle's entry
+                vf = [c for c in p.state.facts if _value_fact(c)]
+                if vf:
+                    bad += 1
+                    res.fail("R-GAP", finding(prop, "R-GAP", fn, p.node or fn.node, f"a reading is returned without the entry of the managed series {name} that the other paths write, under the value condition [{' & '.join(show_cond(c) for c in vf)[:140]}]: the series has a hole on such a candle and what is computed from it has a gap after warm-up", construct=f"{name} not written under {' & '.join(show_cond(c) for c in vf)}"[:190]))
+        if not bad:
+            res.ok("R-GAP", {"class": ca.ci.name, "managed series": sorted(allw), "why": "written on every path that returns a reading (or the path reads this candle's entry)"}, nontrivial=f"{ca.ci.name}:managed")
+
+
 def check_sqrt(prop: str, res: Result, repo: Repo, cas: List[ClassAnalysis], signs: Signs):
     for ca1 in cas:
         ca = signs.analyse(ca1.ci)
